@@ -152,6 +152,28 @@ func Catch(f func()) (panicked bool) {
 // Gate is a scheduling point of the interleaving discipline (no-op natively).
 func Gate() {}
 
+var (
+	slowOnce    sync.Once
+	slowRelease = make(chan struct{})
+)
+
+// Slow marks a point where a callback may take arbitrarily long.  Under the engine it is a
+// scheduling point.  Natively it returns at once, except when replaying a path on which the engine
+// let a timer fire while this goroutine was still busy (VERIF_SLOW): then it blocks until the
+// harness calls ReleaseSlow (at most 12s).
+func Slow() {
+	if os.Getenv("VERIF_SLOW") == "" {
+		return
+	}
+	select {
+	case <-slowRelease:
+	case <-time.After(12 * time.Second):
+	}
+}
+
+// ReleaseSlow lets every goroutine parked in Slow continue.
+func ReleaseSlow() { slowOnce.Do(func() { close(slowRelease) }) }
+
 // Symbolic reports whether the harness runs under the symbolic executor.
 func Symbolic() bool { return false }
 
